@@ -22,7 +22,7 @@ PROPS = ["DoneAbsorbing"]
 
 
 def C(**kw):
-    c = {"N": "2", "MaxSegs": "2", "WithLL": "TRUE", "MaxTries": "1", "MaxCalls": "3", "Devs": "{}"}
+    c = {"N": "2", "MaxSegs": "2", "WithLL": "TRUE", "MaxTries": "1", "MaxCalls": "3", "Devs": "{}", "IncDelSet": "{FALSE}", "SkipLLSet": "{FALSE}"}
     c.update({k: str(v) for k, v in kw.items()})
     return c
 
@@ -31,13 +31,15 @@ def run(prop, tier):
     q = tier == "quick"
     rep = vlib.Report(prop, tier)
     rep.rule = ("programs over {Next, SeekTo(x)} with x on the doubled key domain (keys and gaps, backward seeks, seeks after exhaustion), for every snapshot shape "
-                "(segments with set/del per key, optional lower-level layer) and every pair of bounds (nil, gap, key, equal, inverted); distinct by (shape, bounds, program); "
+                "(segments with set/del per key, optional lower-level layer), every pair of bounds (nil, gap, key, equal, inverted) and the iterator options IncludeDeletions / SkipLowerLevel; distinct by (shape, bounds, options, program); "
                 "non-trivial = the shape has a tombstone or a lower-level layer, or the program contains a SeekTo")
     work = vlib.scratch(prop)
     vlib.build_harness(("iterreplay",))
     findings = vlib.load_findings()
     sd = vlib.seed()
     exhaustive = [("c09_n2_t1", C(MaxTries=1, MaxCalls=3)), ("c09_n2_t100", C(MaxTries=100, MaxCalls=3))]
+    # the iterator options: IncludeDeletions (deletion entries are visited, value nil) and SkipLowerLevel
+    exhaustive.append(("c09_opts", C(MaxTries=1, MaxCalls=2, IncDelSet="{TRUE, FALSE}", SkipLLSet="{TRUE, FALSE}")))
     if not q:
         exhaustive.append(("c09_n3", C(N=3, MaxSegs=2, MaxCalls=2, WithLL="FALSE")))
     for name, consts in exhaustive:
@@ -57,6 +59,8 @@ def run(prop, tier):
          [{"mode": "store", "n": 3, "maxTries": 1}, {"mode": "mem", "n": 3, "maxTries": 1}, {"mode": "store", "n": 3, "maxTries": 100, "keyset": "emptykey", "deferredSort": True}]),
         ("sim", "c09_walk_n4", C(N=4, MaxSegs=3, MaxCalls=6, MaxTries=100), 100 if q else 2000,
          [{"mode": "store", "n": 4, "maxTries": 100}, {"mode": "app", "n": 4, "maxTries": 100}]),
+        ("sim", "c09_walk_opts", C(N=3, MaxSegs=3, MaxCalls=6, MaxTries=1, IncDelSet="{TRUE, FALSE}", SkipLLSet="{TRUE, FALSE}"), 200 if q else 3000,
+         [{"mode": "store", "n": 3, "maxTries": 1}, {"mode": "app", "n": 3, "maxTries": 100}, {"mode": "store", "n": 3, "maxTries": 1, "keyset": "emptykey"}]),
         ("lead", "c09_lead", C(MaxTries=1, MaxCalls=3, Devs='{"OptimizeAfterSkip"}'), ["LeadIterAgrees"], [{"mode": "store", "n": 2, "maxTries": 1}, {"mode": "mem", "n": 2, "maxTries": 1}]),
     ]
     kinds_seen = {}
